@@ -566,4 +566,400 @@ theorem exSource_wf : WfSource (fun _ => none) 1000 exSource := by
 example : parseBlockSourceWith (fun _ => none) 1000 20 (blockC exSource) = some exSource :=
   block_round_trip dateShape_none 1000 20 exSource exSource_wf (by decide)
 
+/-! ## C14 for authorizers: `dump_code` read by `parse_source` -/
+
+theorem pkind_not_others {dateP} (k : PKind) (Z : List Char) (fuel : Nat) :
+    pPredicate dateP fuel (pkindC k ++ ' ' :: Z) = .err ∧ pFactInner dateP fuel (pkindC k ++ ' ' :: Z) = .err ∧
+      pCheckInner dateP fuel (pkindC k ++ ' ' :: Z) = .err := by
+  cases k <;>
+    simp [pkindC, pPredicate, pFactInner, pCheckInner, pName, space0, isSpace, isNameChar, lowByte, isAlphaB, isDigitB,
+      List.takeWhile, List.dropWhile, tagNoCase, Char.toLower]
+
+/-- a policy statement: neither a rule, a fact nor a check; read by `policy_inner` -/
+theorem element_policy {dateP} (hd : DateShape dateP) (k : PKind) (b : Body) (bs : List Body) (Z : List Char) (fuel : Nat)
+    (hw : ∀ y ∈ b :: bs, WfBody dateP y) (hf : needBodies (b :: bs) ≤ fuel) :
+    pElement dateP true fuel (pkindC k ++ ' ' :: (bodyC b ++ (tailBodiesC bs ++ ';' :: Z))) = .ok (.policy k (b :: bs)) Z := by
+  obtain ⟨hp, hfa, hck⟩ := pkind_not_others (dateP := dateP) k (bodyC b ++ (tailBodiesC bs ++ ';' :: Z)) fuel
+  have hrule : pRuleInner dateP fuel (pkindC k ++ ' ' :: (bodyC b ++ (tailBodiesC bs ++ ';' :: Z))) = .err := by
+    simp only [pRuleInner, hp]
+  have hc := policy_rt hd k b bs fuel (';' :: Z) hw (itemEnd_semi Z) hf
+  simp only [pElement, hrule, thenSep, hfa, hck, ↓reduceIte, hc, pSep_semi]
+
+def policyStmtC (kb : PKind × List Body) : List Char :=
+  match kb.2 with
+  | b :: bs => pkindC kb.1 ++ ' ' :: (bodyC b ++ (tailBodiesC bs ++ [';', '\n']))
+  | [] => []
+
+def policiesC (ps : List (PKind × List Body)) : List Char := ps.flatMap policyStmtC
+
+structure WfPolicy (dateP : List Char → Option Nat) (kb : PKind × List Body) : Prop where
+  nonempty : kb.2 ≠ []
+  bodies : ∀ y ∈ kb.2, WfBody dateP y
+
+theorem clean_policies {dateP} (ps : List (PKind × List Body)) (T : List Char) (hw : ∀ c ∈ ps, WfPolicy dateP c) (hT : Clean T) :
+    Clean (policiesC ps ++ T) := by
+  cases ps with
+  | nil => simpa [policiesC] using hT
+  | cons c cs =>
+    obtain ⟨k, bl⟩ := c
+    have hne := (hw (k, bl) List.mem_cons_self).nonempty
+    cases bl with
+    | nil => exact absurd rfl hne
+    | cons b bs =>
+      simp only [policiesC, List.flatMap_cons, policyStmtC, List.append_assoc]
+      cases k <;> exact clean_head _ (by decide)
+
+theorem policies_loop {dateP} (hd : DateShape dateP) (fuel : Nat) : ∀ (ps : List (PKind × List Body)) (n : Nat) (T : List Char) (acc : Source),
+    (∀ c ∈ ps, WfPolicy dateP c ∧ needBodies c.2 ≤ fuel) → Clean T →
+    pElements dateP true fuel (n + ps.length) (policiesC ps ++ T) acc =
+      pElements dateP true fuel n T { acc with policies := acc.policies ++ ps } := by
+  intro ps
+  induction ps with
+  | nil => intro n T acc _ _; simp [policiesC]
+  | cons c cs ih =>
+    intro n T acc hw hT
+    obtain ⟨k, bl⟩ := c
+    have hwc := hw (k, bl) List.mem_cons_self
+    cases bl with
+    | nil => exact absurd rfl hwc.1.nonempty
+    | cons b bs =>
+      have hrest : Clean (policiesC cs ++ T) := clean_policies cs T (fun g hg => (hw g (List.mem_cons_of_mem _ hg)).1) hT
+      have hel := element_policy hd k b bs ('\n' :: (policiesC cs ++ T)) fuel hwc.1.bodies hwc.2
+      have hne : (pkindC k ++ ' ' :: (bodyC b ++ (tailBodiesC bs ++ ';' :: '\n' :: (policiesC cs ++ T)))).isEmpty = false := by
+        cases k <;> simp [pkindC]
+      have e1 : policiesC ((k, b :: bs) :: cs) ++ T = pkindC k ++ ' ' :: (bodyC b ++ (tailBodiesC bs ++ ';' :: '\n' :: (policiesC cs ++ T))) := by
+        simp only [policiesC, List.flatMap_cons, policyStmtC, List.append_assoc, List.cons_append, List.nil_append]
+      have e2 : n + ((k, b :: bs) :: cs).length = (n + cs.length) + 1 := by simp only [List.length_cons]; omega
+      rw [e1, e2, pElements_step true fuel _ _ _ _ acc hne hel, clean_after_newline _ hrest,
+        ih n T _ (fun g hg => hw g (List.mem_cons_of_mem _ hg)) hT]
+      simp only [Source.add, List.append_assoc, List.cons_append, List.nil_append]
+
+/-- a blank line between two sections is skipped with the line break of the statement before it -/
+def gap (nonempty : Bool) : List Char := if nonempty then ['\n'] else []
+
+theorem clean_gap (b : Bool) (T : List Char) (hT : Clean T) : space0 ('\n' :: (gap b ++ T)) = T := by
+  cases b
+  · simp only [gap, Bool.false_eq_true, ↓reduceIte, List.nil_append]
+    exact clean_after_newline T hT
+  · simp only [gap, ↓reduceIte, List.cons_append, List.nil_append]
+    have h := clean_after_newline T hT
+    simp only [space0, List.dropWhile, show isSpace '\n' = true by decide] at h ⊢
+    exact h
+
+/-- what the loop needs to know of one kind of statement -/
+structure StmtOK {α : Type} (dateP : List Char → Option Nat) (wp : Bool) (fuel : Nat) (stmt : α → List Char) (el : α → Elem)
+    (x : α) : Prop where
+  parses : ∀ Z, pElement dateP wp fuel (stmt x ++ ';' :: Z) = .ok (el x) Z
+  head : ∃ c tl, stmt x = c :: tl ∧ isSpace c = false
+
+def sectionC {α : Type} (stmt : α → List Char) (xs : List α) : List Char := xs.flatMap fun x => stmt x ++ [';', '\n']
+
+/-- a section of statements followed by a blank line (when `g`) and text that starts a statement -/
+theorem section_loop {α : Type} {dateP} (wp : Bool) (fuel : Nat) (stmt : α → List Char) (el : α → Elem) :
+    ∀ (xs : List α) (n : Nat) (T : List Char) (acc : Source) (g : Bool),
+    (∀ x ∈ xs, StmtOK dateP wp fuel stmt el x) → Clean T → (xs ≠ [] ∨ g = false) →
+    pElements dateP wp fuel (n + xs.length) (sectionC stmt xs ++ (gap g ++ T)) acc =
+      pElements dateP wp fuel n T (xs.foldl (fun a x => a.add (el x)) acc) := by
+  intro xs
+  induction xs with
+  | nil =>
+    intro n T acc g _ _ hg
+    rcases hg with h | h
+    · exact absurd rfl h
+    · subst h; simp [sectionC, gap]
+  | cons x xs ih =>
+    intro n T acc g hw hT _
+    have hx := hw x List.mem_cons_self
+    obtain ⟨c, tl, hc, hsp⟩ := hx.head
+    have hel := hx.parses ('\n' :: (sectionC stmt xs ++ (gap g ++ T)))
+    have hne : (stmt x ++ ';' :: '\n' :: (sectionC stmt xs ++ (gap g ++ T))).isEmpty = false := by rw [hc]; rfl
+    have e1 : sectionC stmt (x :: xs) ++ (gap g ++ T) = stmt x ++ ';' :: '\n' :: (sectionC stmt xs ++ (gap g ++ T)) := by
+      simp only [sectionC, List.flatMap_cons, List.append_assoc, List.cons_append, List.nil_append]
+    have e2 : n + (x :: xs).length = (n + xs.length) + 1 := by simp only [List.length_cons]; omega
+    rw [e1, e2, pElements_step wp fuel _ _ _ _ acc hne hel]
+    cases xs with
+    | nil =>
+      simp only [sectionC, List.flatMap_nil, List.nil_append, List.length_nil, Nat.add_zero, List.foldl_cons, List.foldl_nil]
+      rw [clean_gap g T hT]
+    | cons y ys =>
+      obtain ⟨c', tl', hc', hsp'⟩ := (hw y (List.mem_cons_of_mem _ List.mem_cons_self)).head
+      have hcl : Clean (sectionC stmt (y :: ys) ++ (gap g ++ T)) := by
+        simp only [sectionC, List.flatMap_cons, List.append_assoc, hc', List.cons_append]
+        exact clean_head _ hsp'
+      rw [clean_after_newline _ hcl, ih n T _ g (fun z hz => hw z (List.mem_cons_of_mem _ hz)) hT (.inl (by simp))]
+      simp only [List.foldl_cons]
+
+theorem foldl_add_fact (fs : List SPred) : ∀ acc : Source,
+    fs.foldl (fun a x => a.add (.fact x)) acc = { acc with facts := acc.facts ++ fs } := by
+  induction fs with
+  | nil => intro acc; simp
+  | cons f fs ih => intro acc; rw [List.foldl_cons, ih]; simp only [Source.add, List.append_assoc, List.cons_append, List.nil_append]
+
+theorem foldl_add_rule (rs : List (SPred × Body)) : ∀ acc : Source,
+    rs.foldl (fun a x => a.add (.rule x.1 x.2)) acc = { acc with rules := acc.rules ++ rs } := by
+  induction rs with
+  | nil => intro acc; simp
+  | cons f fs ih => intro acc; rw [List.foldl_cons, ih]; simp only [Source.add, List.append_assoc, List.cons_append, List.nil_append]
+
+theorem foldl_add_check (cs : List (CKind × List Body)) : ∀ acc : Source,
+    cs.foldl (fun a x => a.add (.check x.1 x.2)) acc = { acc with checks := acc.checks ++ cs } := by
+  induction cs with
+  | nil => intro acc; simp
+  | cons f fs ih => intro acc; rw [List.foldl_cons, ih]; simp only [Source.add, List.append_assoc, List.cons_append, List.nil_append]
+
+theorem foldl_add_policy (cs : List (PKind × List Body)) : ∀ acc : Source,
+    cs.foldl (fun a x => a.add (.policy x.1 x.2)) acc = { acc with policies := acc.policies ++ cs } := by
+  induction cs with
+  | nil => intro acc; simp
+  | cons f fs ih => intro acc; rw [List.foldl_cons, ih]; simp only [Source.add, List.append_assoc, List.cons_append, List.nil_append]
+
+def ruleS (hb : SPred × Body) : List Char := predC hb.1 ++ ' ' :: '<' :: '-' :: ' ' :: bodyC hb.2
+
+def checkS (kb : CKind × List Body) : List Char :=
+  match kb.2 with
+  | b :: bs => ckindC kb.1 ++ ' ' :: (bodyC b ++ tailBodiesC bs)
+  | [] => []
+
+def policyS (kb : PKind × List Body) : List Char :=
+  match kb.2 with
+  | b :: bs => pkindC kb.1 ++ ' ' :: (bodyC b ++ tailBodiesC bs)
+  | [] => []
+
+theorem factsC_section (fs : List SPred) : factsC fs = sectionC predC fs := rfl
+
+theorem rulesC_section (rs : List (SPred × Body)) : rulesC rs = sectionC ruleS rs := by
+  simp only [rulesC, sectionC]
+  apply flatMap_congr_memB
+  intro x _
+  simp only [ruleStmtC, ruleS, List.append_assoc, List.cons_append]
+
+theorem checksC_section {dateP} (cs : List (CKind × List Body)) (hw : ∀ c ∈ cs, WfCheck dateP c) :
+    checksC cs = sectionC checkS cs := by
+  simp only [checksC, sectionC]
+  apply flatMap_congr_memB
+  intro kb hkb
+  obtain ⟨k, bl⟩ := kb
+  cases bl with
+  | nil => exact absurd rfl (hw _ hkb).nonempty
+  | cons b bs => simp only [checkStmtC, checkS, List.append_assoc, List.cons_append]
+
+theorem policiesC_section {dateP} (cs : List (PKind × List Body)) (hw : ∀ c ∈ cs, WfPolicy dateP c) :
+    policiesC cs = sectionC policyS cs := by
+  simp only [policiesC, sectionC]
+  apply flatMap_congr_memB
+  intro kb hkb
+  obtain ⟨k, bl⟩ := kb
+  cases bl with
+  | nil => exact absurd rfl (hw _ hkb).nonempty
+  | cons b bs => simp only [policyStmtC, policyS, List.append_assoc, List.cons_append]
+
+theorem fact_ok {dateP} (hd : DateShape dateP) (wp : Bool) (fuel : Nat) (f : SPred)
+    (hw : wfPred dateP f = true ∧ needL f.terms + 2 ≤ fuel) : StmtOK dateP wp fuel predC Elem.fact f :=
+  ⟨fun Z => element_fact hd wp f Z fuel hw.1 hw.2, predC_head f (wfPredAny_of_wfPred f hw.1)⟩
+
+theorem rule_ok {dateP} (hd : DateShape dateP) (wp : Bool) (fuel : Nat) (r : SPred × Body)
+    (hw : WfRule dateP r ∧ needVs r.1.terms + needBody r.2 ≤ fuel) :
+    StmtOK dateP wp fuel ruleS (fun x => Elem.rule x.1 x.2) r := by
+  refine ⟨fun Z => ?_, ?_⟩
+  · have := element_rule hd wp r.1 r.2 Z fuel hw.1.head hw.1.body hw.1.vars hw.2
+    simpa only [ruleS, List.append_assoc, List.cons_append] using this
+  · obtain ⟨c, tl, hc, hsp⟩ := predC_head r.1 hw.1.head
+    exact ⟨c, _, by simp only [ruleS, hc, List.cons_append]; rfl, hsp⟩
+
+theorem check_ok {dateP} (hd : DateShape dateP) (wp : Bool) (fuel : Nat) (c : CKind × List Body)
+    (hw : WfCheck dateP c ∧ needBodies c.2 ≤ fuel) :
+    StmtOK dateP wp fuel checkS (fun x => Elem.check x.1 x.2) c := by
+  obtain ⟨k, bl⟩ := c
+  cases bl with
+  | nil => exact absurd rfl hw.1.nonempty
+  | cons b bs =>
+    refine ⟨fun Z => ?_, ?_⟩
+    · have := element_check hd wp k b bs Z fuel hw.1.bodies hw.2
+      simpa only [checkS, List.append_assoc, List.cons_append] using this
+    · cases k <;> exact ⟨_, _, by simp only [checkS, ckindC, List.cons_append]; rfl, by decide⟩
+
+theorem policy_ok {dateP} (hd : DateShape dateP) (fuel : Nat) (c : PKind × List Body)
+    (hw : WfPolicy dateP c ∧ needBodies c.2 ≤ fuel) :
+    StmtOK dateP true fuel policyS (fun x => Elem.policy x.1 x.2) c := by
+  obtain ⟨k, bl⟩ := c
+  cases bl with
+  | nil => exact absurd rfl hw.1.nonempty
+  | cons b bs =>
+    refine ⟨fun Z => ?_, ?_⟩
+    · have := element_policy hd k b bs Z fuel hw.1.bodies hw.2
+      simpa only [policyS, List.append_assoc, List.cons_append] using this
+    · cases k <;> exact ⟨_, _, by simp only [policyS, pkindC, List.cons_append]; rfl, by decide⟩
+
+/-- the text `dump_code` writes: facts, rules, checks, policies; a blank line after each of the
+    first three sections that is not empty -/
+def sourceC (src : Source) : List Char :=
+  factsC src.facts ++ (gap (!src.facts.isEmpty) ++ (rulesC src.rules ++ (gap (!src.rules.isEmpty) ++
+    (checksC src.checks ++ (gap (!src.checks.isEmpty) ++ (policiesC src.policies ++ []))))))
+
+structure WfAuthorizer (dateP : List Char → Option Nat) (fuel : Nat) (src : Source) : Prop where
+  noscopes : src.scopes = []
+  facts : ∀ f ∈ src.facts, wfPred dateP f = true ∧ needL f.terms + 2 ≤ fuel
+  rules : ∀ r ∈ src.rules, WfRule dateP r ∧ needVs r.1.terms + needBody r.2 ≤ fuel
+  checks : ∀ c ∈ src.checks, WfCheck dateP c ∧ needBodies c.2 ≤ fuel
+  policies : ∀ c ∈ src.policies, WfPolicy dateP c ∧ needBodies c.2 ≤ fuel
+
+theorem ne_or_gap {α : Type} (l : List α) : l ≠ [] ∨ (!l.isEmpty) = false := by
+  cases l with
+  | nil => right; rfl
+  | cons a b => left; simp
+
+theorem clean_section_gap {α : Type} {dateP} {wp : Bool} {fuel : Nat} {stmt : α → List Char} {el : α → Elem}
+    (xs : List α) (T : List Char) (hw : ∀ x ∈ xs, StmtOK dateP wp fuel stmt el x) (hT : Clean T) :
+    Clean (sectionC stmt xs ++ (gap (!xs.isEmpty) ++ T)) := by
+  cases xs with
+  | nil => simpa [sectionC, gap] using hT
+  | cons y ys =>
+    obtain ⟨c', tl', hc', hsp'⟩ := (hw y List.mem_cons_self).head
+    simp only [sectionC, List.flatMap_cons, List.append_assoc, hc', List.cons_append]
+    exact clean_head _ hsp'
+
+/-- **C14, authorizers.** The model of `parse_source`, run on the text `dump_code` writes for an
+    authorizer of the grammar (facts, rules, checks, policies, a blank line between sections),
+    returns its facts, rules, checks and policies, in order. -/
+theorem source_round_trip {dateP} (hd : DateShape dateP) (fuel n : Nat) (src : Source) (hw : WfAuthorizer dateP fuel src)
+    (hn : src.facts.length + src.rules.length + src.checks.length + src.policies.length + 1 ≤ n) :
+    pElements dateP true fuel n (sourceC src) ⟨[], [], [], [], []⟩ = some src := by
+  obtain ⟨m, rfl⟩ : ∃ m, n = ((((m + 1) + src.policies.length) + src.checks.length) + src.rules.length) + src.facts.length :=
+    ⟨n - src.facts.length - src.rules.length - src.checks.length - src.policies.length - 1, by omega⟩
+  have okF := fun f hf => fact_ok hd true fuel f (hw.facts f hf)
+  have okR := fun r hr => rule_ok hd true fuel r (hw.rules r hr)
+  have okC := fun c hc => check_ok hd true fuel c (hw.checks c hc)
+  have okP := fun c hc => policy_ok hd fuel c (hw.policies c hc)
+  have eC := checksC_section src.checks (fun c hc => (hw.checks c hc).1)
+  have eP := policiesC_section src.policies (fun c hc => (hw.policies c hc).1)
+  have h4 : Clean (sectionC policyS src.policies ++ (gap false ++ [])) := by
+    have := clean_policies src.policies [] (fun c hc => (hw.policies c hc).1) clean_nil
+    rw [eP] at this; simpa [gap] using this
+  have h3 := clean_section_gap src.checks _ okC h4
+  have h2 := clean_section_gap src.rules _ okR h3
+  have hsc := hw.noscopes
+  unfold sourceC
+  rw [factsC_section, rulesC_section, eC, eP]
+  have e0 : sectionC policyS src.policies ++ [] = sectionC policyS src.policies ++ (gap false ++ []) := by simp [gap]
+  rw [e0, section_loop true fuel predC Elem.fact src.facts _ _ _ _ okF h2 (ne_or_gap _),
+    section_loop true fuel ruleS _ src.rules _ _ _ _ okR h3 (ne_or_gap _),
+    section_loop true fuel checkS _ src.checks _ _ _ _ okC h4 (ne_or_gap _),
+    section_loop true fuel policyS _ src.policies _ _ _ _ okP clean_nil (.inr rfl), pElements_nil,
+    foldl_add_fact, foldl_add_rule, foldl_add_check, foldl_add_policy]
+  cases src
+  simp only at hsc
+  subst hsc
+  simp
+
+/-- `parse_source` with the driver's fuel is the loop the theorem speaks of -/
+theorem parseSource_eq {dateP} (s : List Char) :
+    parseSource dateP s = pElements dateP true (fuelOf s) (s.length + 2) s ⟨[], [], [], [], []⟩ := rfl
+
+/-! ## the text above is what the printer model writes for an authorizer -/
+
+def toSPolicy (k : PKind) (bs : List Body) : SPolicy := ⟨k, bs.map (toSRule ⟨"query", []⟩)⟩
+
+theorem printPolicy_eq {dateP} (k : PKind) (b : Body) (bs : List Body) (hw : ∀ y ∈ b :: bs, WfBody dateP y) :
+    (printPolicy (toSPolicy k (b :: bs))).toList = pkindC k ++ ' ' :: (bodyC b ++ tailBodiesC bs) := by
+  have hb : (((b :: bs).map (toSRule ⟨"query", []⟩)).map printBody).map String.toList = (b :: bs).map bodyC := by
+    rw [List.map_map, List.map_map]
+    apply List.map_congr_left
+    intro y hy
+    exact printBody_eq_bodyC _ y (hw y hy)
+  unfold printPolicy toSPolicy
+  simp only [String.toList_append, joinWith_or_toList]
+  simp only [List.map_cons] at hb ⊢
+  simp only [List.cons.injEq] at hb
+  rw [hb.1, hb.2, tailBodiesC_eq]
+  cases k <;> rfl
+
+def toSAuthorizer (src : Source) : SAuthorizer :=
+  ⟨src.facts, src.rules.map fun hb => toSRule hb.1 hb.2, src.checks.map fun kb => toSCheck kb.1 kb.2,
+   src.policies.map fun kb => toSPolicy kb.1 kb.2⟩
+
+theorem gap_toList (b : Bool) : (if b = true then "" else "\n").toList = gap (!b) := by
+  cases b <;> rfl
+
+/-- on well-formed authorizers the printer model's `printAuthorizer` writes `sourceC` -/
+theorem printAuthorizer_eq_sourceC {dateP} (fuel : Nat) (src : Source) (hw : WfAuthorizer dateP fuel src) :
+    (printAuthorizer (toSAuthorizer src)).toList = sourceC src := by
+  have hfacts : (src.facts.map fun f => printPred f ++ ";\n").flatMap String.toList = factsC src.facts := by
+    simp only [factsC, List.flatMap_map]
+    apply flatMap_congr_memB
+    intro f _
+    simp only [String.toList_append, printPred_eq_predC]; rfl
+  have hrules : ((src.rules.map fun hb => toSRule hb.1 hb.2).map fun r => printRule r ++ ";\n").flatMap String.toList =
+      rulesC src.rules := by
+    simp only [rulesC, List.flatMap_map]
+    apply flatMap_congr_memB
+    intro hb hmem
+    simp only [String.toList_append, printRule_eq hb.1 hb.2 (hw.rules hb hmem).1.body, ruleStmtC, List.append_assoc,
+      List.cons_append]
+    rfl
+  have hchecks : ((src.checks.map fun kb => toSCheck kb.1 kb.2).map fun c => printCheck c ++ ";\n").flatMap String.toList =
+      checksC src.checks := by
+    simp only [checksC, List.flatMap_map]
+    apply flatMap_congr_memB
+    intro kb hmem
+    obtain ⟨k, bl⟩ := kb
+    have hwc := (hw.checks (k, bl) hmem).1
+    cases bl with
+    | nil => exact absurd rfl hwc.nonempty
+    | cons b bs =>
+      simp only [String.toList_append, printCheck_eq k b bs hwc.bodies, checkStmtC, List.append_assoc, List.cons_append]
+      rfl
+  have hpols : ((src.policies.map fun kb => toSPolicy kb.1 kb.2).map fun c => printPolicy c ++ ";\n").flatMap String.toList =
+      policiesC src.policies := by
+    simp only [policiesC, List.flatMap_map]
+    apply flatMap_congr_memB
+    intro kb hmem
+    obtain ⟨k, bl⟩ := kb
+    have hwc := (hw.policies (k, bl) hmem).1
+    cases bl with
+    | nil => exact absurd rfl hwc.nonempty
+    | cons b bs =>
+      simp only [String.toList_append, printPolicy_eq k b bs hwc.bodies, policyStmtC, List.append_assoc, List.cons_append]
+      rfl
+  unfold printAuthorizer toSAuthorizer sourceC
+  simp only [String.toList_append, String.toList_join, hfacts, hrules, hchecks, hpols, gap_toList, List.isEmpty_map,
+    List.append_assoc, List.append_nil]
+
+/-! ## non-vacuity -/
+
+def exAuthorizer : Source :=
+  ⟨[], [⟨"time", [.int 1700000000]⟩, ⟨"allow", [.int 1]⟩],
+   [],
+   [(.all, [exBody2])],
+   [(.allow, [exBody1, exBody2]), (.deny, [⟨[], [.val (.bool true)], []⟩])]⟩
+
+theorem exAuthorizer_wf : WfAuthorizer (fun _ => none) 1000 exAuthorizer := by
+  refine ⟨rfl, by decide, fun r hr => by simp [exAuthorizer] at hr, ?_, ?_⟩
+  · intro c hc
+    simp only [exAuthorizer, List.mem_cons, List.mem_nil_iff, or_false] at hc
+    subst hc
+    refine ⟨⟨by simp, ?_⟩, by decide⟩
+    intro y hy
+    simp only [List.mem_cons, List.mem_nil_iff, or_false] at hy
+    subst hy
+    exact exBody2_wf
+  · intro c hc
+    simp only [exAuthorizer, List.mem_cons, List.mem_nil_iff, or_false] at hc
+    rcases hc with rfl | rfl
+    · refine ⟨⟨by simp, ?_⟩, by decide⟩
+      intro y hy
+      simp only [List.mem_cons, List.mem_nil_iff, or_false] at hy
+      rcases hy with rfl | rfl
+      · exact exBody1_wf
+      · exact exBody2_wf
+    · refine ⟨⟨by simp, ?_⟩, by decide⟩
+      intro y hy
+      simp only [List.mem_cons, List.mem_nil_iff, or_false] at hy
+      subst hy
+      exact ⟨by decide, by decide, fun sc h => by simp at h⟩
+
+/-- an authorizer with a fact called `allow`, no rules (so no blank line for them), a check and
+    two policies comes back -/
+example : pElements (fun _ => none) true 1000 20 (sourceC exAuthorizer) ⟨[], [], [], [], []⟩ = some exAuthorizer :=
+  source_round_trip dateShape_none 1000 20 exAuthorizer exAuthorizer_wf (by decide)
+
 end Biscuit.BlockParser
